@@ -9,7 +9,7 @@ class C17(Prop):
     id = 'C17'
     module = 'Cbor.Props.C17'
     theorems = ['Props.C17.C17_mutable_globals', 'Props.C17.C17_global_writers', 'Props.C17.C17_static_locals', 'Props.C17.C17_workers_write_no_global',
-                'Props.C17.C17_any_schedule', 'Props.C17.C17_disjoint_writes']
+                'Props.C17.C17_any_schedule', 'Props.C17.C17_disjoint_writes', 'Props.C17.C17_only_reentrant_externals']
     trusted_base = BASE_TRUST + CENSUS_TRUST + [
         'C17_any_schedule: in the heap-level client model (no state besides each thread\'s own items and slots - which is what the census establishes for the code) every interleaving of the '
         'threads\' API calls gives each thread the final state and the results of its solo run, and a step of one thread leaves the others\' states untouched; the allocator is modelled per thread '
